@@ -157,7 +157,7 @@ def cudd_env(L):
     e['Cudd_IsComplement'] = lambda a: not (a >> ((1 << N) - 1)) & 1
     e['Cudd_Regular'] = lambda a: a if (a >> ((1 << N) - 1)) & 1 \
         else ~a & F
-    e['Cudd_bddIthVar'] = lambda m, j: tt.var(N, j)
+    e['Cudd_bddIthVar'] = lambda m, j: tt.var(N, j % N)
 
     def _cofactor(m, f, c):
         # c is a cube (product of literals)
@@ -252,6 +252,7 @@ def zdd_env(L):
         ZPERM['invperm'][level] if 0 <= level < N else -1)
     e['Cudd_ReadPermZdd'] = lambda mgr, j: (
         ZPERM['invperm'].index(j) if 0 <= j < N else -1)
+    e['Cudd_zddIthVar'] = lambda mgr, j: L.result(tt.var(N, j % N))
     e['Cudd_ReadZero'] = lambda mgr: 0
     e['Cudd_IsConstant'] = lambda a: a in (0, F)
     e['Cudd_zddDiff'] = lambda m, a, b: L.result(a & ~b)
@@ -454,6 +455,21 @@ class Model:
             except NotReached as e:
                 self.not_reached.append(f'{mgr_cls}.{m}: {e}')
         self.mgr = Manager()
+
+    def extend_for_declare(self):
+        """`add_var` / `_add_var` of the manager class, transliterated
+        (cudd and cudd_zdd)."""
+        if self.name not in ('cudd', 'cudd_zdd'):
+            raise NotReached('declare: cudd wrappers only')
+        env, Manager = self.env, self.Manager
+        blo, bhi = find_class(self.lines, self.mgr_cls)
+        for m in ('add_var', '_add_var'):
+            src = transliterate_c(extract(self.lines, m, blo, bhi))
+            exec(compile('from __future__ import annotations\n' + src,
+                         f'<{self.name}.{m}>', 'exec'), env)
+            setattr(Manager, m, env[m])
+            self.sources[f'{self.mgr_cls}.{m}'] = src
+            self.reached.append(f'{self.mgr_cls}.{m}')
 
     def extend_for_json_load(self):
         """What `dd._copy.load_json` needs from a `dd.cudd.BDD`:
